@@ -106,6 +106,10 @@ int main(int argc, char **argv)
 					VH_COUNT("programs_with_spawn_in_loop");
 				if (p->flags & 4)
 					VH_COUNT("programs_with_failing_child");
+				if (p->flags & 8)
+					VH_COUNT("programs_with_unbraced_macro_as_loop_or_if_body");
+				if (p->flags & 16)
+					VH_COUNT("programs_with_unbraced_spawn_as_loop_or_if_body");
 			}
 			if (vh_want_sample() && (p->flags & 3) == 3 && strlen(p->source) < 900)
 				vh_sample("program %d: %s  => %s", p->id, p->source, p->expected);
